@@ -14,6 +14,7 @@ import (
 	"github.com/TimothyStiles/poly/io/genbank"
 	"pgregory.net/rapid"
 	"verifharness/internal/gbk"
+	"verifharness/internal/insdc"
 	"verifharness/internal/vk"
 )
 
@@ -311,6 +312,13 @@ func checkCorpus(c CorpusCase) error {
 	if err != nil {
 		vk.Count("record outside the independent reader's domain (skipped)", 1)
 		return nil
+	}
+	for _, f := range ind.Features {
+		if _, err := insdc.ParseStrict(f.Location); err != nil {
+			// e.g. data/sample.gbk writes a 3' partial end as 687..3158>: not a well-formed record in the property's sense
+			vk.Count("record with a location outside the INSDC grammar (skipped)", 1)
+			return nil
+		}
 	}
 	got, perr := parse("Parse("+c.File+")", func() []poly.Sequence { return []poly.Sequence{genbank.Parse([]byte(text))} })
 	if perr != nil {
